@@ -384,9 +384,9 @@ def check(argv):
     from standins import kernels as K
 
     fam = K.family(tier, seed, 4 if tier == "quick" else 30)
-    kind_a(report)
-    make_problem_part(report, fam)
-    effect_scan(report)
+    report.guarded("Problem eq/hash obligations", kind_a, report)
+    report.guarded("make_problem permutations", make_problem_part, report, fam)
+    report.guarded("effect scan", effect_scan, report)
     kind_c(report, tier, seed)
     report.assumptions = ["tuple/str/enum hashing and == are consistent (dependency contract of the Python runtime)",
                           "the effect scan is syntactic: it over-approximates reads of ambient state but does not follow dynamic attribute access"]
